@@ -517,6 +517,6 @@ func TestVerif_C57(t *testing.T) {
 	r.Require("probes_on_first_invalid_instant", int64(nTok))
 	r.Require("other_triples_differing_only_in_separators", int64(nTok))
 	r.Require("malformed_or_forged_checked", int64(nTok)*10)
-	r.Require("separator_pairs_enumerated", 30000)
+	r.Require("separator_pairs_enumerated", 15000)
 	r.Require("tokens_with_sub_ms_issue_time", int64(nTok)/4)
 }
